@@ -126,6 +126,8 @@ class StmtMixin(object):
             ok = isinstance(v, PyDict) and not v.items
         elif kind == "emptylist":
             ok = isinstance(v, PyList) and not v.items
+        elif kind == "emptyset":
+            ok = isinstance(v, PySet) and not v.items
         elif kind.startswith("opaque:"):
             ok = isinstance(v, Opaque) and v.kind == kind[7:]
         if not ok:
@@ -635,9 +637,22 @@ class StmtMixin(object):
                 except ContinueEx:
                     continue
             raise OutOfSubset("while loop exceeds unroll limit")
+        yg = spec.yield_ghost
+        if yg is not None:
+            from .interp import YieldTrace
+            from .types import fresh_seq, fresh_of_type
+            gname, gtype = yg
+            dflt = (lambda: fresh_of_type(self, gtype, "nil"))
+            env.set(gname, YieldTrace().as_symseq(self, default=dflt))
         self.check_invariants(spec, env, "establish")
         if self.path.nondet("loop%d" % spec.ordinal):
             self.havoc_loop(spec, node.body, env)
+            if yg is not None:
+                sofar = fresh_seq(self, gtype, gname)
+                lt = YieldTrace()
+                lt.add_seq(sofar)
+                env.set(gname, sofar)
+                self.frame.loop_ytrace = (lt, gname, env, dflt)
             self.assume_invariants(spec, env)
             c = ops.truth(self, self.eval(node.test, env))
             self.path.assume(c)
@@ -646,11 +661,17 @@ class StmtMixin(object):
             self.frame.active_hints = list(spec.hints)
             self.frame.hints_done = set()
             try:
-                self.exec_block(node.body, env)
+                try:
+                    self.exec_block(node.body, env)
+                finally:
+                    if yg is not None:
+                        self.frame.loop_ytrace = None
             except ContinueEx:
                 pass
             except BreakEx:
                 self.path.event("loop_break", spec.ordinal)
+                if yg is not None:
+                    self.frame.ytrace.add_seq(lt.as_symseq(self, default=dflt))
                 return
             self.path.event("loop_iter_end", spec.ordinal, None)
             self.check_invariants(spec, env, "preserve")
@@ -660,6 +681,10 @@ class StmtMixin(object):
                                  z3.And(z3num(m0) >= 0, z3num(m1) < z3num(m0)), kind="decreases")
             raise PathEnd()
         self.havoc_loop(spec, node.body, env)
+        if yg is not None:
+            final = fresh_seq(self, gtype, gname)
+            env.set(gname, final)
+            self.frame.ytrace.add_seq(final)
         self.assume_invariants(spec, env)
         c = ops.truth(self, self.eval(node.test, env))
         self.path.assume(ops.negate(c))
@@ -694,6 +719,8 @@ class StmtMixin(object):
                 return
         if spec is not None and spec.abstract is not None:
             return self.loop_abstract(node, env, spec)
+        if spec is not None and spec.summarise == "map":
+            return self.for_map(node, env, it, spec)
         if spec is not None and spec.summarise == "stateless":
             return self.for_stateless(node, env, it, spec)
         if spec is not None and spec.invariants:
@@ -841,6 +868,55 @@ class StmtMixin(object):
         self.assume_invariants(spec, env)
         self.path.event("loop_summary", spec.ordinal, it)
         self.exec_block(node.orelse, env)
+
+    def for_map(self, node, env, it, spec):
+        """``for v in <sequence>: <straight-line assignments>; yield f(v)``: the loop yields the image of the
+        sequence under f, element by element.  One branch executes the body for an ARBITRARY element (side
+        obligations and per-item clauses are checked there); the other appends the mapped sequence."""
+        seq = it.seq if isinstance(it, GenVal) else it
+        if not isinstance(seq, SymSeq):
+            raise OutOfSubset("map-summarised loop over %r" % (it,))
+        body = node.body
+        ok = (not node.orelse and len(body) >= 1 and isinstance(body[-1], ast.Expr) and isinstance(body[-1].value, ast.Yield)
+              and all(isinstance(st, ast.Assign) and all(isinstance(t, ast.Name) for t in st.targets) for st in body[:-1])
+              and not any(isinstance(x, (ast.Yield, ast.YieldFrom)) for st in body[:-1] for x in ast.walk(st)))
+        if not ok:
+            raise OutOfSubset("map-summarised loop body must be straight-line assignments followed by one yield")
+        if self.path.nondet("loop%d" % spec.ordinal):
+            item, cond, k = self.arbitrary_item(it, "it%d" % spec.ordinal)
+            self.path.assume(cond)
+            self.poison_assigned(node.body, env, "assigned in a map-summarised loop body")
+            self.assign(node.target, item, env)
+            self.path.event("loop_iter", spec.ordinal, k, it)
+            self.exec_block(node.body, env)
+            self.path.event("loop_iter_end", spec.ordinal, k)
+            raise PathEnd()
+        snap_env = Env(module=env.module)       # values as they are now (the mapped sequence is evaluated lazily)
+        chain, e_ = [], env
+        while e_ is not None:
+            chain.append(e_)
+            e_ = e_.parent
+        for e_ in reversed(chain):
+            snap_env.vars.update(e_.vars)
+
+        def at(k, seq=seq, node=node, snap_env=snap_env):
+            e2 = Env(parent=snap_env)
+            self.spec_mode += 1
+            try:
+                self.assign(node.target, seq.at(k), e2)
+                for st in node.body[:-1]:
+                    v = self.eval(st.value, e2)
+                    for t in st.targets:
+                        e2.set(t.id, v)
+                yv = node.body[-1].value.value
+                return self.eval(yv, e2) if yv is not None else None
+            finally:
+                self.spec_mode -= 1
+        mapped = SymSeq(seq.length, at, "map")
+        mapped.source = seq
+        self.frame.ytrace.add_seq(mapped)
+        self.path.event("yield_seq", mapped)
+        self.poison_assigned([node], env, "assigned in a map-summarised loop")
 
     def for_cut(self, node, env, it, spec):
         """Cut a for loop at an inductive invariant.  The ghost name ``spec.ghost`` (default
